@@ -310,7 +310,7 @@ PROPS = {
         "thm_module": "NutsModel.Thm.CtlTrace",
         "namespace": "NutsModel.Ctl",
         "theorems": ["trace_eq_range", "drawn_eq_recorded", "schedule_independent_prefix", "schedule_independent_complete",
-                     "trace_prefix_full", "streams_distinct", "resume_exact", "n_step_mono"],
+                     "trace_prefix_full", "streams_distinct", "resume_exact", "n_step_mono", "trace_grows", "trace_nodup"],
         "harness": "C10",
         "level": "proof",
         "rule": ('the REAL parallel Sampler (rayon pool, 1..16 cores, 1..8 chains, HashMap and Arrow traces alternating, Diag NUTS / LowRank NUTS / Diag MCLMC presets in rotation) run under seeded schedule perturbation (hook arm_schedule: random sleeps/yields at every chain-loop and controller point) with a seeded script of pause / resume / progress / flush / inspect / wait_timeout / abort calls, a watchdog for hangs and catch_unwind for panics. ' +
@@ -352,7 +352,7 @@ PROPS = {
         "thm_module": "NutsModel.Thm.CtlTrace",
         "namespace": "NutsModel.Ctl",
         "theorems": ["pause_bound", "pause_blocks", "blocked_no_step", "blocked_stable", "not_started_stays_idle", "not_started_blocks",
-                     "resume_exact", "resume_unblocks", "resume_unblocks_exact", "trace_eq_range", "schedule_independent_complete"],
+                     "resume_exact", "resume_unblocks", "resume_unblocks_exact", "trace_eq_range", "schedule_independent_complete", "trace_grows"],
         "harness": "C12",
         "level": "proof",
         "rule": ('the REAL parallel Sampler (rayon pool, 1..16 cores, 1..8 chains, HashMap and Arrow traces alternating, Diag NUTS / LowRank NUTS / Diag MCLMC presets in rotation) run under seeded schedule perturbation (hook arm_schedule: random sleeps/yields at every chain-loop and controller point) with a seeded script of pause / resume / progress / flush / inspect / wait_timeout / abort calls, a watchdog for hangs and catch_unwind for panics. ' +
